@@ -405,12 +405,11 @@ impl Category {
             }
             Category::Version => {
                 let mut parts = string.split('.');
-                parts.clone().count() <= 4
-                    && parts.all(|part| part.parse::<u16>().is_ok())
+                parts.clone().count() <= 4 && parts.all(is_decimal_u16)
             }
             Category::Language => {
                 let mut parts = string.split(',');
-                parts.all(|part| part.parse::<u16>().is_ok())
+                parts.all(is_decimal_u16)
             }
             Category::Cabinet => {
                 if let Some(substr) = string.strip_prefix('#') {
@@ -429,6 +428,13 @@ impl Category {
             _ => true,
         }
     }
+}
+
+/// Returns true if the string is a plain decimal number (digits only, no
+/// sign) whose value fits in 16 bits.
+fn is_decimal_u16(part: &str) -> bool {
+    part.bytes().all(|byte| byte.is_ascii_digit())
+        && part.parse::<u16>().is_ok()
 }
 
 impl fmt::Display for Category {
